@@ -1,6 +1,6 @@
 CONSTANTS
   MaxDepth = 2
-  DeepAll = TRUE
+  DeepAll = "thorough"
   SeedKinds = {"Int"}
 SPECIFICATION Spec
 INVARIANTS SpecSelfConsistent WellTypedExact RejectsNaive RejectsSilent RejectsTooFar Emit
